@@ -170,7 +170,7 @@ func (c *Ctx) checkFilterSummaries() {
 	})
 	// which what-constants are compared at all
 	core.AllInstrs(pof, func(in ssa.Instruction) {
-		if b, ok := in.(*ssa.BinOp); ok && b.Op == token.EQL {
+		if b, ok := in.(*ssa.BinOp); ok && (b.Op == token.EQL || b.Op == token.NEQ) {
 			for _, side := range []ssa.Value{b.X, b.Y} {
 				if k, ok := side.(*ssa.Const); ok && k.Value != nil && k.Value.Kind() == constant.String {
 					exemptions[constant.StringVal(k.Value)] = true
@@ -200,7 +200,7 @@ func (c *Ctx) checkFilterSummaries() {
 	consts := map[string]bool{}
 	hasP := false
 	core.AllInstrs(ppf, func(in ssa.Instruction) {
-		if b, ok := in.(*ssa.BinOp); ok && b.Op == token.EQL && (core.IsFieldLoad(whatF)(b.X) || core.IsFieldLoad(whatF)(b.Y)) {
+		if b, ok := in.(*ssa.BinOp); ok && (b.Op == token.EQL || b.Op == token.NEQ) && (core.IsFieldLoad(whatF)(b.X) || core.IsFieldLoad(whatF)(b.Y)) {
 			for _, side := range []ssa.Value{b.X, b.Y} {
 				if k, ok := side.(*ssa.Const); ok && k.Value != nil && k.Value.Kind() == constant.String {
 					consts[constant.StringVal(k.Value)] = true
@@ -211,7 +211,20 @@ func (c *Ctx) checkFilterSummaries() {
 			hasP = true
 		}
 	})
-	okC := hasP && len(consts) == 2 && consts["gone"] && consts["acs"]
+	// true only through IsPresencer(want&given of the pair) or one of the two exempt kinds: decided
+	// as an implication of the function's result at one of its call sites
+	okImpl := false
+	if callers := c.callersOf(ppf); len(callers) > 0 {
+		if call, isCall := callers[0].Site.(*ssa.Call); isCall {
+			gs := []core.Guard{
+				core.BoolGuard("IsPresencer(pair)", core.IsCallTo(isPres, func(v ssa.Value) bool { return c.pairCall(v) }), true),
+				core.EqGuard("what==gone", core.IsFieldLoad(whatF), core.IsConstString("gone"), true),
+				core.EqGuard("what==acs", core.IsFieldLoad(whatF), core.IsConstString("acs"), true),
+			}
+			okImpl, _ = core.CalleeImplies(call, 0, "bool", 1, 0, gs, nil)
+		}
+	}
+	okC := hasP && okImpl && len(consts) == 2 && consts["gone"] && consts["acs"]
 	r.Check(okC, "C10.1b-filter-summary", fk(ppf)+": IsPresencer(want&given) or what in {gone, acs}", c.P.Pos(ppf.Pos()), "", fmt.Sprintf("the online presence filter's exemptions changed: %v, P tested on the pair: %v", keysOf(consts), hasP))
 }
 
@@ -251,30 +264,63 @@ func (c *Ctx) checkOnlineCounter() {
 			kind = "other"
 		}
 		construct := fmt.Sprintf("%s: online%s #%s", fk(fn), kind, retOrdinalOfStore(fn, st))
-		switch kind {
-		case "++", "--":
-			// foreground sessions only, except multiplexing sessions (cluster) whose per-user lists are counted
+		// judgeStep: an increment/decrement at `at` in function f is for a foreground session
+		// (or part of dropping a multiplexing session, one per hosted user)
+		judgeStep := func(f *ssa.Function, at ssa.Instruction, construct string) {
 			gFg := core.BoolGuard("!sess.background", core.IsFieldLoad(bg), false)
-			ok, cnt := core.GuardedBy(fn, st, gFg)
-			inLoop := false
-			if fa != nil {
-				// decrement inside a loop over muids of a multiplexing session: one per hosted user
-				for e := range loopBackEdges(fn) {
-					_ = e
-				}
-				core.AllInstrs(fn, func(in ssa.Instruction) {
-					if _, isRange := in.(*ssa.Range); isRange {
-						inLoop = true
-					}
-				})
-			}
+			ok, cnt := core.GuardedBy(f, at, gFg)
 			if ok && cnt[0] > 0 {
-				r.OK("C10.3-online-counter", construct, c.pos(st), "only for foreground sessions")
-			} else if inLoop && strings.Contains(fk(fn), "handleLeaveRequest") || c.readsField(fn, c.field("server", "perSessionData", "muids")) {
-				r.OK("C10.3-online-counter", construct+" [multiplexed users]", c.pos(st), "exception: per-user accounting of a multiplexing (cluster) session being dropped")
+				r.OK("C10.3-online-counter", construct, c.pos(at), "only for foreground sessions")
+			} else if c.readsField(f, c.field("server", "perSessionData", "muids")) {
+				r.OK("C10.3-online-counter", construct+" [multiplexed users]", c.pos(at), "exception: per-user accounting of a multiplexing (cluster) session being dropped")
 			} else {
-				r.Fail("C10.3-online-counter", construct, c.pos(st), "the online counter is changed for a background session")
+				r.Fail("C10.3-online-counter", construct, c.pos(at), "the online counter is changed for a background session")
 			}
+		}
+		// an extracted adjuster `online += delta`: every call site passes +1 or -1 and is judged in its caller
+		if b, isB := core.Strip(st.Val).(*ssa.BinOp); isB && kind == "other" && b.Op == token.ADD {
+			var dp *ssa.Parameter
+			if p, ok := core.Strip(b.Y).(*ssa.Parameter); ok && core.IsFieldLoad(online)(b.X) {
+				dp = p
+			} else if p, ok := core.Strip(b.X).(*ssa.Parameter); ok && core.IsFieldLoad(online)(b.Y) {
+				dp = p
+			}
+			idx := -1
+			for i, q := range fn.Params {
+				if dp != nil && q == dp {
+					idx = i
+				}
+			}
+			callers := c.callersOf(fn)
+			if idx >= 0 && len(callers) > 0 {
+				allOK := true
+				for _, cs := range callers {
+					args := cs.Site.Common().Args
+					step := ""
+					if idx < len(args) {
+						if core.IsConstInt(1)(args[idx]) {
+							step = "++"
+						} else if core.IsConstInt(-1)(args[idx]) {
+							step = "--"
+						}
+					}
+					if step == "" {
+						allOK = false
+						r.Fail("C10.3-online-counter", fmt.Sprintf("%s: online adjusted through %s", fk(cs.Caller), fk(fn)), c.pos(cs.Site), "online counter adjusted by something other than +1 / -1")
+						continue
+					}
+					r.Func(fk(cs.Caller))
+					judgeStep(cs.Caller, cs.Site.(ssa.Instruction), fmt.Sprintf("%s: online%s via %s #%s", fk(cs.Caller), step, fn.Name(), c.pos(cs.Site)))
+				}
+				if allOK {
+					kind = "adjuster"
+				}
+			}
+		}
+		switch kind {
+		case "adjuster":
+		case "++", "--":
+			judgeStep(fn, st, construct)
 		case "=0", "=1":
 			r.OK("C10.3-online-counter", construct, c.pos(st), "reset / first-session value")
 		default:
